@@ -51,6 +51,16 @@ fn content(dir: &str, file: &str) -> String {
     format!("{} of {}\nsecond line\n", file, dir)
 }
 
+/// In layouts with stray bit 2 set, one mandatory file per directory exists but
+/// is empty (a directory "contains" a file whether or not it has content).
+fn content_of(l: &Layout, n: usize, file: &str) -> String {
+    if l.stray & 2 == 2 && MANDATORY[n % 3] == file {
+        String::new()
+    } else {
+        content(NAMES[n], file)
+    }
+}
+
 fn materialise(root: &Path, l: &Layout) -> std::io::Result<()> {
     std::fs::create_dir_all(root)?;
     for (n, mask, extra) in &l.dirs {
@@ -58,7 +68,7 @@ fn materialise(root: &Path, l: &Layout) -> std::io::Result<()> {
         std::fs::create_dir_all(&d)?;
         for (k, f) in MANDATORY.iter().enumerate() {
             if mask >> k & 1 == 1 {
-                std::fs::write(d.join(f), content(NAMES[*n], f))?;
+                std::fs::write(d.join(f), content_of(l, *n, f))?;
             }
         }
         if *extra {
@@ -134,7 +144,9 @@ fn check_layout(t: &mut Tally, scratch: &Path, id: usize, l: &Layout) {
         for (i, r) in reads.iter().enumerate() {
             let f = FILES[i];
             let written = MANDATORY.contains(&f) || (*extra && ["+BUILD_INFO", "+SIZE_PKG", "+REQUIRED_BY"].contains(&f));
-            let ok = if written { r.as_deref() == Ok(content(name, f).as_str()) } else { r.is_err() };
+            let n = NAMES.iter().position(|x| x == name).unwrap();
+            let expect = if MANDATORY.contains(&f) { content_of(l, n, f) } else { content(name, f) };
+            let ok = if written { r.as_deref() == Ok(expect.as_str()) } else { r.is_err() };
             if !ok {
                 t.violation(Violation::new("layout", layout_json(l), json!({"package": name, "file": f, "written": written}), json!(format!("{:?}", r)), "read_metadata must return that package's '+FILE' content (an error when the file does not exist)"));
                 return;
